@@ -24,7 +24,7 @@ ALLOWED_AXIOMS = []
 TRUSTED_BASE = [
     "coqc 8.16.1 kernel (vm_compute used for table facts and refutation witnesses; no native_compute)",
     "no axioms: every theorem of coq/C01/Properties.v is 'Closed under the global context'",
-    "translator harness/C01/scrape.py (regex scrape of the expression ladder of syntaxdefs.lua, priority[]/UNARY_PRIORITY of src/lua/lparser.c with the BinOpr order of lcode.h, cflags_base of cdefs.lua for gcc and clang, position of the b == -1 line and the fast-path width of the shift operators in cbuiltins.lua, the emitter each statement of cgenerator.visitors.VarDecl is written to)",
+    "translator harness/C01/scrape.py (regex scrape of the expression ladder of syntaxdefs.lua, priority[]/UNARY_PRIORITY of src/lua/lparser.c with the BinOpr order of lcode.h, cflags_base of cdefs.lua for gcc and clang, position of the b == -1 line and the fast-path width of the shift operators in cbuiltins.lua, the emitter each statement of cgenerator.visitors.VarDecl is written to, the two `sideeffect` rules of analyzer.lua: visitor_Call's propagation from the arguments and visitors.Assign's marking of stores without a symbol)",
     "cross-property files: coq/C01/{CSem,Helpers}.v are COPIES of coq/C03/{CSem,Helpers}.v and coq/C01/VarDecl.v is a COPY of coq/C09/VarDecl.v, rewritten by checks/C01.py:sync_shared during gen (a change in coq/C03 or coq/C09 changes this check); coq/C01/Order.v is the source copied to coq/C09; harness/C01/scrape.py, progs.py and vardecl.py are also used by checks/C03.py and checks/C09.py",
     "extraction: Require Extraction + ExtrOcamlBasic only; ocaml/zutil.ml + coq/C01/driver.ml",
     "harnesses: harness/C01/numdrv.nelua (compiled by the real compiler), harness/C01/numdrv.lua (reference interpreter rebuilt from /repo/src), harness/C01/progs.py (program generator, annotation eraser, AST printer parser), harness/C01/vardecl.py",
@@ -57,15 +57,17 @@ THEOREM_CLASSES = {
     "C01_band_eq": "main", "C01_bor_eq": "main", "C01_bxor_eq": "main", "C01_bnot_eq": "main",
     "C01_idiv_eq": "main", "C01_imod_eq": "main", "C01_div_by_zero_both_stop": "main",
     "C01_shl_eq": "main", "C01_shr_eq": "main", "C01_cmp_eq": "main",
-    "C01_mixed_cmp_refuted": "refutation", "C01_mixed_cmp_partial": "main", "C01_lua_mixed_cmp_exact": "main",
+    "C01_mixed_cmp_refuted": "refutation", "C01_mixed_cmp_partial": "main", "C01_lua_mixed_cmp_exact": "corollary",     # about the reference side's model only (lvm.c mixed comparisons = the exact order)
     "C01_fornum_refuted": "refutation", "C01_fornum_partial": "main",
     "C01_order_refuted": "refutation",            # witness g(x, f()): known finding `print(counter, inc())`
     "C01_order_refuted_global": "refutation",     # known finding `print(x + f())` [gcc]
     "C01_order_refuted_local": "refutation",      # known finding `print(y + fy())` [clang]
     "C01_order_refuted_args3": "refutation",      # known finding `g(x, f(), h())`
-    "C01_order_wrapper_sequenced": "tripwire",            # regression pins of repaired defects (7b4cb3f, 9e49985):
-    "C01_order_wrapped_args_sequenced": "tripwire",       # the witnesses are still replayed and must agree
+    "C01_order_se_policy_iff": "tripwire",                # every analyzer policy: each repaired witness agrees iff its rule is in force
+    "C01_order_wrapper_sequenced": "tripwire",            # the three former witnesses under the SCRAPED analyzer rules (7b4cb3f, 9e49985):
+    "C01_order_wrapped_args_sequenced": "tripwire",       # a revert flips Gen.analyzer_se_policy and breaks them; witnesses still replayed
     "C01_order_indirect_store_sequenced": "tripwire",
+    "C01_order_args_rule_needed": "corollary",            # the premise of the positive theorem is necessary
     "C01_order_preserved_partial": "main",
     "C01_vardecl_order": "main",                  # full strength since /repo d685d37, f54f9c0 (was _refuted)
     "C01_vardecl_order_iff_policy": "tripwire",   # every placement: source order iff both statements go to defemitter
@@ -74,7 +76,7 @@ THEOREM_CLASSES = {
     "C01_ladder_facts": "tripwire",
 }
 MANIFEST_ENTRY = {
-    "text": "proof, partial: theorems cover int64 + - * unary- & | ~ // % << >> and the six comparisons (= Lua for all operands; division by zero stops both), integer/float comparisons (refuted beyond 2^53, partial below; Lua's side exact), the numeric for loop (refuted at the type limits, partial inside), evaluation order of operands and call arguments (refuted when a function writes a variable another operand reads, proved when no function writes), the order of the values of a multi-variable declaration (source order, full strength since /repo d685d37 and f54f9c0), and the agreement of the two precedence tables under one precedence-climbing function.  Rest on differential testing only: floats, number formatting, strings, control flow, functions, require, the real PEG parser = climb, programs as a whole.",
+    "text": "proof, partial: theorems cover int64 + - * unary- & | ~ // % << >> and the comparisons < <= == ~= (= Lua for all operands; > >= are the swapped forms, sent to the compiler but not separate theorems; division by zero stops both), integer/float comparisons (refuted beyond 2^53, partial below; Lua's side exact), the numeric for loop (refuted at the type limits, partial inside), evaluation order of operands and call arguments under the analyzer's two scraped sideeffect rules (refuted when a function writes a variable another operand reads; proved, for events and values, when no function writes), the order of the values of a multi-variable declaration (source order, full strength since /repo d685d37 and f54f9c0), and the agreement of the two precedence tables under one precedence-climbing function.  Rest on differential testing only: floats, number formatting, strings, control flow, functions, require, the real PEG parser = climb, programs as a whole.",
     "note": "no axioms; tie: scraped syntaxdefs.lua/lparser.c/cdefs.lua/cbuiltins.lua/cgenerator.lua facts in Gen.v, extracted model run against the real compiler (numdrv.nelua), the reference interpreter rebuilt from /repo/src and generated programs; 15 open findings replayed on every run; depends on coq/C03/{CSem,Helpers}.v and coq/C09/VarDecl.v (copied by sync_shared)",
     "technique": "Coq theorems about an executable Gallina model + generated parameters + behavioural correspondence of the extracted model; differential testing against reference Lua",
 }
@@ -120,6 +122,7 @@ def gen(ctx):
     guard = scrape.scrape_div_guard(vlib.repo_read("lualib/nelua/cbuiltins.lua"))
     fastw = scrape.scrape_shift_fast_path(vlib.repo_read("lualib/nelua/cbuiltins.lua"))
     vdp = scrape.scrape_vardecl_policy(vlib.repo_read("lualib/nelua/cgenerator.lua"))
+    sep = scrape.scrape_sideeffect_policy(vlib.repo_read("lualib/nelua/analyzer.lua"))
     keys = list(scrape.BINOPS)
     gcc_base = fl["gcc"]["cflags_base"].split()
     clang_base = fl["clang"]["cflags_base"].split()
@@ -127,6 +130,7 @@ def gen(ctx):
         "(* GENERATED by checks/C01.py from /repo (syntaxdefs.lua, src/lua/lparser.c, lcode.h, cdefs.lua) - do not edit *)",
         "From Coq Require Import ZArith Bool.",
         "From C01 Require Import Ops VarDecl.",
+        "From C01 Require Order.",
         "Local Open Scope Z_scope.",
         "(* rule number (1 = expror) of the ladder rule whose operator list contains the operator *)",
         coq_match("nelua_level", "Z", lad["binop_level"], keys, scrape.BINOPS),
@@ -150,6 +154,9 @@ def gen(ctx):
         "(* cgenerator.visitors.VarDecl: does the bare initializer of a variable dropped by dead code elimination /",
         "   the `_asgnret = call` statement of a trailing multiple-return call go to `defemitter` (appended last)? *)",
         "Definition vardecl_policy : vd_policy := mk_vdp %s %s." % ("true" if vdp["dead_in_def"] else "false", "true" if vdp["asgnret_in_def"] else "false"),
+        "(* analyzer.lua: visitor_Call gives a call the `sideeffect` attribute of its arguments / visitors.Assign marks the",
+        "   enclosing function for a store whose target has no symbol (field, index, pointer) *)",
+        "Definition analyzer_se_policy : Order.se_policy := Order.mk_sep %s %s." % ("true" if sep["args_propagate"] else "false", "true" if sep["indirect_marks"] else "false"),
         "",
     ])
     vlib.write_if_changed(os.path.join(vlib.coq_dir(ID), "Gen.v"), txt)
@@ -158,7 +165,7 @@ def gen(ctx):
                   if scrape.LUA_TOKEN.get(k[2:] if k.startswith("u:") else k) != v}
     return {"nelua_ladder": lad, "lua_priority": lua, "gcc_cflags_base": gcc_base, "clang_cflags_base": clang_base,
             "tokens_differing_from_lua": bad_tokens, "div_guard_first": guard, "shift_fast_path_compares_left_width": fastw,
-            "vardecl_policy": vdp}
+            "vardecl_policy": vdp, "sideeffect_policy": sep}
 
 
 # ---------------------------------------------------------------------------
